@@ -109,7 +109,7 @@ def tasks(tier, seed):
                 ts.append(dict(tcode=t, scale=sc, mode=mode, zero=False, raw_ts=False))
                 if tier == 'thorough' or (sc in ('none', 'Linear') and t in (3, 9, 0x20, 0x44)):
                     ts.append(dict(tcode=t, scale=sc, mode=mode, zero=True, raw_ts=False))
-        if t == 0x44 and tier == 'thorough':
+        if t == 0x44:
             for mode in ('eager', 'lazy'):
                 ts.append(dict(tcode=t, scale='none', mode=mode, zero=False, raw_ts=True))
     return ts
@@ -406,9 +406,6 @@ def run_task(task):
                 return                      # not a successful read
             for label, arr in res:
                 ctx.obligations += 1
-                if task['raw_ts'] and task['tcode'] == 0x44:
-                    ctx.discharged += 1
-                    continue
                 if not hasattr(arr, 'dtype'):
                     ctx.fail('not-an-array', op=label, declared=str(declared), got=type(arr).__name__)
                 got = _dtype_of(arr)
@@ -438,7 +435,8 @@ def signature(c):
         if what == 'exception':
             return 'C14/exception/daqmx/%s' % c.get('exc')
         return 'C14/%s/daqmx%s' % (what, '/%d' % t['variant'] if what == 'dtype-mismatch' else '')
-    return 'C14/%s/%s/%s' % (c.get('what', ''), tm.TYPES[t['tcode']][0], t['scale'].split('+')[-1].replace('Polynomial0', 'Polynomial'))
+    return 'C14/%s/%s/%s%s' % (c.get('what', ''), tm.TYPES[t['tcode']][0], t['scale'].split('+')[-1].replace('Polynomial0', 'Polynomial'),
+                               '/raw-timestamps' if t.get('raw_ts') else '')
 
 
 def replay(art):
@@ -467,8 +465,6 @@ def replay(art):
         except Exception:
             return None
         for label, arr in res:
-            if task['raw_ts'] and task['tcode'] == 0x44:
-                continue
             if not hasattr(arr, 'dtype'):
                 return dict(sig=signature(dict(task=task, what='not-an-array')), op=label, declared=str(declared), got=type(arr).__name__)
             got = _dtype_of(arr)
